@@ -12,8 +12,30 @@ ASM_MGR_ASSUMPTION = (
 )
 
 
-def run_ctx(rep, tier, wanted, only=None, leaf_all=True):
-    """wanted: list of (role, aspect, mode_quick, mode_thorough).  Returns CtxPlan."""
+def base_jobs(tier, roles, compress_quick=(), compress_thorough=()):
+    """jobs of the synchronous C family (*_ctx_base.c): contracts of init/update/final/submit (vf/ctxbase.py) and,
+    for C01, the compression functions against the standards (vf/compress.py).
+    quick: sha256 only (the other four files are proved in the thorough tier; same shape, different parameters)."""
+    from . import compress, ctxbase
+
+    def make(scratch):
+        full = tier != "quick" or os.environ.get("VERIF_FULL", "") != ""
+        algs = None if full else ["sha256"]
+        js = [j for j in ctxbase.jobs(os.path.join(scratch, "ctxbase"), algs) if j.meta["role"] in roles]
+        keys = list(compress_thorough if full else compress_quick)
+        if keys:
+            js += compress.jobs(os.path.join(scratch, "compress"), keys)
+        return js
+    return make
+
+
+BASE_NOTE = ("base family (*_mb/*_ctx_base.c, the binding chosen when no SIMD level is usable): synchronous, no lane manager; "
+             "contracts in contracts/ctxbase_prelude.h; quick tier proves the sha256 file, thorough all five")
+
+
+def run_ctx(rep, tier, wanted, only=None, leaf_all=True, extra=None):
+    """wanted: list of (role, aspect, mode_quick, mode_thorough).  Returns CtxPlan.
+    extra: function(scratch dir) -> further jobs to run in the same pool."""
     try:
         plan = ctxlayer.CtxPlan(os.path.join(runner.scratch(), "ctx"))
     except overlay.OverlayError as e:
@@ -34,6 +56,15 @@ def run_ctx(rep, tier, wanted, only=None, leaf_all=True):
                  "why": "token-identical after renaming algorithm/family identifiers"
                         + ("" if mode == "per_param" else " (parameter macros may differ: proved per parameter set in the thorough tier)")}
             )
+    if extra:
+        try:
+            for j in extra(runner.scratch()):
+                if only and not any(s in j.name for s in only.split(",")):
+                    continue
+                jobs.append(j)
+        except overlay.OverlayError as e:
+            raise evidence.Undecided("extraction broke: %s" % e)
+        rep.notes.append(BASE_NOTE)
     names = set()
     uniq = []
     for j in jobs:
@@ -67,3 +98,24 @@ CHECKER = ("goto-cc --function <harness> <annotated copy of /repo file>; goto-in
            "--enforce-contract <fn> --replace-call-with-contract <callees> --apply-loop-contracts; "
            "cbmc --bounds-check --pointer-check --pointer-overflow-check --unwind 24 --unwinding-assertions "
            "--sat-solver cadical")
+
+
+def add_mgr_bounded(rep, tier, seed):
+    """bounded native check of the ASSUMED lane-manager contract on the real assembly of every family"""
+    from . import native
+    try:
+        ops, maxblk = (2000, 4) if tier == "quick" else (30000, 12)
+        d = native.mgr_diff(os.path.join(runner.scratch(), "native_mgr"), ops, maxblk, rep.seed)
+        rep.bounded.append({"what": "lane managers {submit,flush} of all %d families on the real assembly: returned job was held, digest = fold of the "
+                                    "standard compression (reference from FIPS 180-4 / RFC 1321 / GB/T 32905) over exactly job.len blocks, flush NULL iff "
+                                    "empty, job fields and input untouched, reads confined (guard pages)" % d["families"],
+                            "label": "bounded", "bound": "%d random operations per family, job length 1..%d blocks (occasionally x4)" % (ops, maxblk),
+                            "evaluations": d["calls"], "distinct_nontrivial": d["cases"], "agree": d["ok"], "cmd": d["cmd"]})
+        if not d["ok"]:
+            path = os.path.join(rep.replay_dir(), "mgr_diff.txt")
+            with open(path, "w") as f:
+                f.write("native/mgr_diff_tmpl.c on the real lane managers built from /repo\n$ " + d["cmd"] + "\n" + d["text"])
+            line = [l for l in d["text"].split("\n") if l.startswith("CONTRACT")] or [d["text"][-200:]]
+            rep.add_violation("native/mgr_diff:lane_manager:contract", "assumed lane-manager contract violated on the real code: " + line[0][:200], path, True)
+    except Exception as e:
+        rep.add_undecided("native lane-manager check could not be built/run: %s" % e)
